@@ -468,6 +468,7 @@ def _structured(rng, costs, B, ballots, W, b, P, stable, exh, k):
        swapproj   the payment columns of two selected projects with different costs are swapped
                   (per-voter spending and grand total unchanged; C3 broken on both)
        scale      all payments and the voter budget are multiplied by a factor (ratios kept; C3 broken everywhere)
+       c1cancel_* tiny cancelling payments for unapproved projects (C1 is exact)
     The Coq side classifies each variant (exact / broken by the margin / in between)."""
     m, n = len(costs), len(ballots)
     N = list(range(n))
@@ -518,6 +519,24 @@ def _structured(rng, costs, B, ballots, W, b, P, stable, exh, k):
         f = rng.choice([Fraction(11, 10), Fraction(9, 10), Fraction(5, 4), Fraction(3, 4), Fraction(2), Fraction(1, 2),
                         Fraction(201, 200)])
         cands.append(("scale", W, b * f, [[x * f for x in row] for row in P], stable, exh))
+    # c1cancel: tiny payments for UNAPPROVED projects that cancel (C1 is exact in the code: any non-zero amount
+    # counts), within one voter's spending or within one project's total -- invisible to every rounded sum
+    eps = rng.choice([Fraction(1, 250), Fraction(1, 1000), Fraction(1, 10 ** 6)])
+    un = [(i, c) for i in N for c in range(m) if c not in ballots[i]]
+    opts = [(i, c1, c2) for (i, c1) in un for (i2, c2) in un if i == i2 and c1 != c2]
+    if opts and rng.random() < 0.6:
+        i, c1, c2 = rng.choice(opts)
+        Q2 = cp()
+        Q2[i][c1] += eps
+        Q2[i][c2] -= eps
+        cands.append(("c1cancel_voter", W, b, Q2, stable, exh))
+    opts = [(c, i, j) for (i, c) in un for (j, c2) in un if c == c2 and i != j]
+    if opts and rng.random() < 0.6:
+        c, i, j = rng.choice(opts)
+        Q2 = cp()
+        Q2[i][c] += eps
+        Q2[j][c] -= eps
+        cands.append(("c1cancel_project", W, b, Q2, stable, exh))
     rng.shuffle(cands)
     return cands[:k]
 
